@@ -17,7 +17,7 @@ package z80
 //@   layer P
 //@   requires vsGhostMem(cpu.Memory)
 //@   ensures [diff] vsExecDiff(cpu, old(cpu), g, old(g)) == 0
-//@   modifies cpu.States, cpu.HALT, g.Mem, g.Rd, g.Wr, g.PIn, g.POut, g.Retn, g.Reti
+//@   modifies cpu.States, cpu.HALT, g.Mem, g.Rd, g.Wr, g.PIn, g.POut, g.Retn, g.Reti, g.Log, g.LogN
 
 // ---------------------------------------------------------------- Step and interrupt acceptance (cpu.go)
 
@@ -25,14 +25,14 @@ package z80
 //@   layer P
 //@   requires vsGhostMem(cpu.Memory)
 //@   ensures [diff] vsStepDiff(cpu, old(cpu), g, old(g)) == 0
-//@   modifies cpu.States, cpu.HALT, cpu.Interrupt, g.Mem, g.Rd, g.Wr, g.PIn, g.POut, g.Retn, g.Reti
+//@   modifies cpu.States, cpu.HALT, cpu.Interrupt, g.Mem, g.Rd, g.Wr, g.PIn, g.POut, g.Retn, g.Reti, g.Log, g.LogN
 
 //@ func (cpu *CPU) processInterrupt() (accepted bool)
 //@   layer P
 //@   requires vsGhostMem(cpu.Memory)
 //@   requires cpu.Interrupt != nil
 //@   ensures [diff] vsIntDiff(cpu, old(cpu), g, old(g), accepted) == 0
-//@   modifies cpu.States, cpu.HALT, g.Mem, g.Rd, g.Wr, g.PIn, g.POut, g.Retn, g.Reti
+//@   modifies cpu.States, cpu.HALT, g.Mem, g.Rd, g.Wr, g.PIn, g.POut, g.Retn, g.Reti, g.Log, g.LogN
 
 // ---------------------------------------------------------------- pure helpers (cpu.go, z80.go)
 
@@ -76,7 +76,9 @@ package z80
 //@   ensures v == old(g.Mem)[old(cpu.PC)]
 //@   ensures cpu.PC == old(cpu.PC)+1
 //@   ensures g.Rd == vsBump64k(old(g.Rd), old(cpu.PC))
-//@   modifies cpu.PC, g.Rd
+//@   ensures g.Log == vsLogged(old(g.Log), old(g.LogN), vsRdCode(old(cpu.PC)))
+//@   ensures g.LogN == old(g.LogN)+1
+//@   modifies cpu.PC, g.Rd, g.Log, g.LogN
 
 //@ func (cpu *CPU) fetchM1() (c uint8)
 //@   props C14
@@ -85,7 +87,9 @@ package z80
 //@   ensures cpu.PC == old(cpu.PC)+1
 //@   ensures cpu.IR.Lo == vsIncR(old(cpu.IR.Lo))
 //@   ensures g.Rd == vsBump64k(old(g.Rd), old(cpu.PC))
-//@   modifies cpu.PC, cpu.IR.Lo, g.Rd
+//@   ensures g.Log == vsLogged(old(g.Log), old(g.LogN), vsRdCode(old(cpu.PC)))
+//@   ensures g.LogN == old(g.LogN)+1
+//@   modifies cpu.PC, cpu.IR.Lo, g.Rd, g.Log, g.LogN
 
 //@ func (cpu *CPU) fetch2() (l, h uint8)
 //@   requires vsGhostMem(cpu.Memory)
@@ -93,35 +97,47 @@ package z80
 //@   ensures h == old(g.Mem)[old(cpu.PC)+1]
 //@   ensures cpu.PC == old(cpu.PC)+2
 //@   ensures g.Rd == vsBump64k(vsBump64k(old(g.Rd), old(cpu.PC)), old(cpu.PC)+1)
-//@   modifies cpu.PC, g.Rd
+//@   ensures g.Log == vsLogged(vsLogged(old(g.Log), old(g.LogN), vsRdCode(old(cpu.PC))), old(g.LogN)+1, vsRdCode(old(cpu.PC)+1))
+//@   ensures g.LogN == old(g.LogN)+2
+//@   modifies cpu.PC, g.Rd, g.Log, g.LogN
 
 //@ func (cpu *CPU) fetch16() (v uint16)
 //@   requires vsGhostMem(cpu.Memory)
 //@   ensures v == uint16(old(g.Mem)[old(cpu.PC)+1])<<8|uint16(old(g.Mem)[old(cpu.PC)])
 //@   ensures cpu.PC == old(cpu.PC)+2
 //@   ensures g.Rd == vsBump64k(vsBump64k(old(g.Rd), old(cpu.PC)), old(cpu.PC)+1)
-//@   modifies cpu.PC, g.Rd
+//@   ensures g.Log == vsLogged(vsLogged(old(g.Log), old(g.LogN), vsRdCode(old(cpu.PC))), old(g.LogN)+1, vsRdCode(old(cpu.PC)+1))
+//@   ensures g.LogN == old(g.LogN)+2
+//@   modifies cpu.PC, g.Rd, g.Log, g.LogN
 
 //@ func (cpu *CPU) readU16(addr uint16) (v uint16)
 //@   requires vsGhostMem(cpu.Memory)
 //@   ensures v == uint16(old(g.Mem)[addr+1])<<8|uint16(old(g.Mem)[addr])
 //@   ensures g.Rd == vsBump64k(vsBump64k(old(g.Rd), addr), addr+1)
-//@   modifies g.Rd
+//@   ensures g.Log == vsLogged(vsLogged(old(g.Log), old(g.LogN), vsRdCode(addr)), old(g.LogN)+1, vsRdCode(addr+1))
+//@   ensures g.LogN == old(g.LogN)+2
+//@   modifies g.Rd, g.Log, g.LogN
 
 //@ func (cpu *CPU) writeU16(addr uint16, v uint16)
 //@   requires vsGhostMem(cpu.Memory)
 //@   ensures g.Mem == vsStore(vsStore(old(g.Mem), addr, uint8(v)), addr+1, uint8(v>>8))
 //@   ensures g.Wr == vsBumpWr(vsBumpWr(old(g.Wr), addr, uint8(v)), addr+1, uint8(v>>8))
-//@   modifies g.Mem, g.Wr
+//@   ensures g.Log == vsLogged(vsLogged(old(g.Log), old(g.LogN), vsWrCode(addr, uint8(v))), old(g.LogN)+1, vsWrCode(addr+1, uint8(v>>8)))
+//@   ensures g.LogN == old(g.LogN)+2
+//@   modifies g.Mem, g.Wr, g.Log, g.LogN
 
 //@ func (cpu *CPU) ioIn(addr uint8) (v uint8)
 //@   ensures v == vsIteU8(cpu.IO == nil, 0, g.InVal[addr])
 //@   ensures g.PIn == vsIte256(cpu.IO == nil, old(g.PIn), vsBump256(old(g.PIn), addr))
-//@   modifies g.PIn
+//@   ensures g.Log == vsIteLog(cpu.IO == nil, old(g.Log), vsLogged(old(g.Log), old(g.LogN), vsInCode(addr)))
+//@   ensures g.LogN == vsIteU8(cpu.IO == nil, old(g.LogN), old(g.LogN)+1)
+//@   modifies g.PIn, g.Log, g.LogN
 
 //@ func (cpu *CPU) ioOut(addr uint8, value uint8)
 //@   ensures g.POut == vsIte64k(cpu.IO == nil, old(g.POut), vsBumpOut(old(g.POut), addr, value))
-//@   modifies g.POut
+//@   ensures g.Log == vsIteLog(cpu.IO == nil, old(g.Log), vsLogged(old(g.Log), old(g.LogN), vsOutCode(addr, value)))
+//@   ensures g.LogN == vsIteU8(cpu.IO == nil, old(g.LogN), old(g.LogN)+1)
+//@   modifies g.POut, g.Log, g.LogN
 
 // ---------------------------------------------------------------- 8-bit ALU (accum.go): textbook definitions
 
